@@ -277,25 +277,32 @@ theorem parseData_soft (f : Facts) : ∀ (fuel : Nat) (inp : Seq) (d : Data), So
       | exact bind_soft _ _ (skipCommand_soft _ _) (fun _ => ih _ _)
       | simp [Soft, pure, Except.pure])
 
+theorem topStep_soft (f : Facts) (k : Seq → Top → R Top) (hk : ∀ r top, Soft (k r top)) (top : Top) (t : Tok)
+    (r : Seq) : Soft (topStep f k top t r) := by
+  unfold topStep
+  simp only
+  repeat' split
+  all_goals first
+    | exact hk _ _
+    | exact bind_soft _ _ (parseTaxa_soft f _ _ _ _) (fun _ => hk _ _)
+    | exact bind_soft _ _ (parseData_soft f _ _ _) (fun _ => hk _ _)
+    | exact bind_soft _ _ (skipBlock_soft _ _) (fun _ => hk _ _)
+    | simp [Soft, pure, Except.pure]
+
 theorem topLoop_soft (f : Facts) : ∀ (fuel : Nat) (inp : Seq) (top : Top), Soft (topLoop f fuel inp top) := by
   intro fuel
   induction fuel with
   | zero => intro inp top; simp [topLoop, Soft]
   | succ k ih =>
     intro inp top
-    constructor
-    all_goals (
-      intro h
-      unfold topLoop at h
-      simp only [bind, Except.bind, pure, Except.pure] at h
-      have h1 := fun a b c => (consumeComment_soft f a b c)
-      have h2 := fun a b c d => (parseTaxa_soft f a b c d)
-      have h3 := fun a b c => (parseData_soft f a b c)
-      have h4 := fun a b => (skipBlock_soft a b)
-      have h5 := fun a b => (ih a b)
-      simp only [Soft] at h1 h2 h3 h4 h5
-      repeat' (split at h <;> try (simp at h))
-      all_goals simp_all)
+    unfold topLoop
+    simp only
+    repeat' split
+    all_goals first
+      | exact ih _ _
+      | exact topStep_soft f _ (fun r t => ih r t) _ _ _
+      | exact bind_soft _ _ (consumeComment_soft f _ _ _) (fun _ => topStep_soft f _ (fun r t => ih r t) _ _ _)
+      | simp [Soft, pure, Except.pure]
 
 theorem addRow_soft (f : Facts) (d : Data) (b : Bag) (r : XRow) : Soft (addRow f d b r) := by
   unfold addRow
